@@ -176,7 +176,9 @@ fn main() {
         }
     }
     for inc in strs(step.get("showincludes")) {
-        println!("Note: including file: {}", inc);
+        // nested includes are indented by one more space per level
+        let depth = (rng::fnv(inc.as_bytes()) % 4) as usize;
+        println!("Note: including file: {}{}", " ".repeat(depth), inc);
     }
     for line in strs(step.get("plain_output")) {
         println!("{}", line);
